@@ -77,3 +77,523 @@ Lemma memattr_witness :
   diff_build 0 (ma_T ["i0=100"]) (ma_T ["i0=100"; "i1=200"]) = BRet 0 [] /\
   diff_build 0 (ma_T ["i0=100"; "i1=200"]) (ma_T ["i0=100"]) = BOverread.
 Proof. vm_compute. split; reflexivity. Qed.
+
+Local Close Scope string_scope.
+
+(* ------------------------------------------------------------------ *)
+(* induction on objects                                                 *)
+
+Section ObjInd.
+  Variable P : obj -> Prop.
+  Hypothesis HP : forall a c m i x, Forall P c -> Forall P m -> Forall P i -> Forall P x -> P (Obj a c m i x).
+  Fixpoint obj_ind' (o : obj) : P o :=
+    match o with
+    | Obj a c m i x =>
+        let go := fix go (l : list obj) : Forall P l :=
+          match l with [] => Forall_nil P | y :: r => Forall_cons y (obj_ind' y) (go r) end in
+        HP a c m i x (go c) (go m) (go i) (go x)
+    end.
+End ObjInd.
+
+Lemma key_eqb_eq a b : key_eqb a b = true <-> a = b.
+Proof.
+  destruct a as [d1 i1], b as [d2 i2]; unfold key_eqb; cbn [fst snd].
+  rewrite andb_true_iff, Z.eqb_eq, N.eqb_eq. split; [intros [-> ->]; reflexivity|intros E; inversion E; auto].
+Qed.
+Lemma key_eqb_refl a : key_eqb a a = true.
+Proof. apply key_eqb_eq. reflexivity. Qed.
+Lemma key_eqb_sym a b : key_eqb a b = key_eqb b a.
+Proof.
+  destruct (key_eqb a b) eqn:E1, (key_eqb b a) eqn:E2; try reflexivity.
+  - apply key_eqb_eq in E1. subst. rewrite key_eqb_refl in E2. discriminate.
+  - apply key_eqb_eq in E2. subst. rewrite key_eqb_refl in E1. discriminate.
+Qed.
+Lemma mem_key_In k l : mem_key k l = true <-> In k l.
+Proof.
+  induction l as [|x r IH]; cbn [mem_key In]; [split; [discriminate|tauto]|].
+  rewrite orb_true_iff, key_eqb_eq, IH. tauto.
+Qed.
+Lemma key_nodup_NoDup l : key_nodup l = true <-> NoDup l.
+Proof.
+  induction l as [|x r IH]; cbn [key_nodup]; [split; [constructor|reflexivity]|].
+  rewrite andb_true_iff, negb_true_iff, IH. split.
+  - intros [H1 H2]. constructor; [|assumption]. intros Hin. apply mem_key_In in Hin. congruence.
+  - intros H. inversion H as [|? ? H1 H2]; subst. split; [|assumption].
+    destruct (mem_key x r) eqn:E; [|reflexivity]. apply mem_key_In in E. contradiction.
+Qed.
+
+(* membership does not depend on the ancestor list *)
+Lemma flat_attrs_anc o : forall anc1 anc2, map fst (flat anc1 o) = map fst (flat anc2 o).
+Proof.
+  apply (obj_ind' (fun o => forall anc1 anc2, map fst (flat anc1 o) = map fst (flat anc2 o))).
+  intros a c m i x Hc Hm Hi Hx anc1 anc2. cbn [flat map fst]. f_equal.
+  rewrite !map_app. 
+  assert (G : forall l k1 k2, Forall (fun o => forall anc1 anc2, map fst (flat anc1 o) = map fst (flat anc2 o)) l ->
+             map fst (flat_map (flat k1) l) = map fst (flat_map (flat k2) l)).
+  { intros l k1 k2 HF. induction HF as [|y r Hy _ IH]; [reflexivity|]. cbn [flat_map]. rewrite !map_app, IH, (Hy k1 k2). reflexivity. }
+  rewrite (G c _ (akey a :: anc2) Hc), (G m _ (akey a :: anc2) Hm), (G i _ (akey a :: anc2) Hi), (G x _ (akey a :: anc2) Hx). reflexivity.
+Qed.
+
+Definition oattrs (o : obj) : list oattr := map fst (flat [] o).
+
+Lemma oattrs_Obj a c m i x :
+  oattrs (Obj a c m i x) = a :: flat_map oattrs c ++ flat_map oattrs m ++ flat_map oattrs i ++ flat_map oattrs x.
+Proof.
+  unfold oattrs. cbn [flat map fst]. f_equal. rewrite !map_app.
+  assert (G : forall l k, map fst (flat_map (flat k) l) = flat_map (fun o => map fst (flat [] o)) l).
+  { induction l as [|y r IH]; intros k; [reflexivity|]. cbn [flat_map]. rewrite map_app, IH, (flat_attrs_anc y k []). reflexivity. }
+  rewrite !G. reflexivity.
+Qed.
+
+Lemma tmap_ext_in f g : forall o, (forall a, In a (oattrs o) -> f a = g a) -> tmap f o = tmap g o.
+Proof.
+  apply (obj_ind' (fun o => (forall a, In a (oattrs o) -> f a = g a) -> tmap f o = tmap g o)).
+  intros a c m i x Hc Hm Hi Hx H. rewrite oattrs_Obj in H. cbn [tmap].
+  assert (G : forall l, Forall (fun o => (forall a, In a (oattrs o) -> f a = g a) -> tmap f o = tmap g o) l ->
+              (forall a, In a (flat_map oattrs l) -> f a = g a) -> map (tmap f) l = map (tmap g) l).
+  { intros l HF. induction HF as [|y r Hy _ IH]; intros Hl; [reflexivity|]. cbn [map]. f_equal.
+    - apply Hy. intros b Hb. apply Hl. cbn [flat_map]. apply in_or_app. left. exact Hb.
+    - apply IH. intros b Hb. apply Hl. cbn [flat_map]. apply in_or_app. right. exact Hb. }
+  f_equal.
+  - apply H. left. reflexivity.
+  - apply G; [exact Hc|]. intros b Hb. apply H. right. apply in_or_app. left. exact Hb.
+  - apply G; [exact Hm|]. intros b Hb. apply H. right. apply in_or_app. right. apply in_or_app. left. exact Hb.
+  - apply G; [exact Hi|]. intros b Hb. apply H. right. do 2 (apply in_or_app; right). apply in_or_app. left. exact Hb.
+  - apply G; [exact Hx|]. intros b Hb. apply H. right. do 3 (apply in_or_app; right). exact Hb.
+Qed.
+
+Lemma tmap_id_in f o : (forall a, In a (oattrs o) -> f a = a) -> tmap f o = o.
+Proof.
+  intros H. rewrite (tmap_ext_in f (fun a => a) o H).
+  clear. revert o. apply (obj_ind' (fun o => tmap (fun a => a) o = o)).
+  intros a c m i x Hc Hm Hi Hx. cbn [tmap].
+  assert (G : forall l, Forall (fun o => tmap (fun a => a) o = o) l -> map (tmap (fun a => a)) l = l).
+  { intros l HF. induction HF as [|y r Hy _ IH]; [reflexivity|]. cbn [map]. rewrite Hy, IH. reflexivity. }
+  rewrite (G c Hc), (G m Hm), (G i Hi), (G x Hx). reflexivity.
+Qed.
+
+Lemma tmap_tmap f g : forall o, tmap f (tmap g o) = tmap (fun a => f (g a)) o.
+Proof.
+  apply (obj_ind' (fun o => tmap f (tmap g o) = tmap (fun a => f (g a)) o)).
+  intros a c m i x Hc Hm Hi Hx. cbn [tmap].
+  assert (G : forall l, Forall (fun o => tmap f (tmap g o) = tmap (fun a => f (g a)) o) l ->
+              map (tmap f) (map (tmap g) l) = map (tmap (fun a => f (g a))) l).
+  { intros l HF. induction HF as [|y r Hy _ IH]; [reflexivity|]. cbn [map]. rewrite Hy, IH. reflexivity. }
+  rewrite (G c Hc), (G m Hm), (G i Hi), (G x Hx). reflexivity.
+Qed.
+
+(* the table of an updated tree, for key-preserving updates *)
+Lemma flat_tmap f (Hk : forall a, akey (f a) = akey a) :
+  forall o anc, flat anc (tmap f o) = map (fun p => (f (fst p), snd p)) (flat anc o).
+Proof.
+  apply (obj_ind' (fun o => forall anc, flat anc (tmap f o) = map (fun p => (f (fst p), snd p)) (flat anc o))).
+  intros a c m i x Hc Hm Hi Hx anc. cbn [tmap flat map fst snd]. rewrite Hk. f_equal. rewrite !map_app.
+  assert (G : forall l k, Forall (fun o => forall anc, flat anc (tmap f o) = map (fun p => (f (fst p), snd p)) (flat anc o)) l ->
+              flat_map (flat k) (map (tmap f) l) = map (fun p => (f (fst p), snd p)) (flat_map (flat k) l)).
+  { intros l k HF. induction HF as [|y r Hy _ IH]; [reflexivity|]. cbn [map flat_map]. rewrite map_app, Hy, IH. reflexivity. }
+  rewrite (G c _ Hc), (G m _ Hm), (G i _ Hi), (G x _ Hx). reflexivity.
+Qed.
+
+Lemma oattrs_tmap f (Hk : forall a, akey (f a) = akey a) o : oattrs (tmap f o) = map f (oattrs o).
+Proof. unfold oattrs. rewrite flat_tmap by exact Hk. rewrite !map_map. reflexivity. Qed.
+
+Lemma lookup_map f (Hk : forall a, akey (f a) = akey a) k tbl :
+  lookup k (map (fun p => (f (fst p), snd p)) tbl) = option_map (fun p => (f (fst p), snd p)) (lookup k tbl).
+Proof.
+  unfold lookup. induction tbl as [|p r IH]; [reflexivity|]. cbn [map find fst]. rewrite Hk.
+  destruct (key_eqb (akey (fst p)) k); [reflexivity|exact IH].
+Qed.
+
+Lemma lookup_some k tbl a anc : lookup k tbl = Some (a, anc) -> In (a, anc) tbl /\ akey a = k.
+Proof.
+  unfold lookup. intros H. apply find_some in H. cbn [fst] in H. destruct H as [H1 H2]. apply key_eqb_eq in H2. auto.
+Qed.
+
+(* with unique keys an attribute record is determined by its key *)
+Lemma unique_by_key (l : list oattr) a b :
+  NoDup (map akey l) -> In a l -> In b l -> akey a = akey b -> a = b.
+Proof.
+  induction l as [|x r IH]; intros Hn Ha Hb E; [contradiction|].
+  cbn [map] in Hn. inversion Hn as [|? ? Hx Hr]; subst.
+  destruct Ha as [->|Ha], Hb as [->|Hb]; auto.
+  - exfalso. apply Hx. rewrite E. apply in_map. exact Hb.
+  - exfalso. apply Hx. rewrite <- E. apply in_map. exact Ha.
+Qed.
+
+(* ------------------------------------------------------------------ *)
+(* hypotheses as propositions                                           *)
+
+Definition Hkeys (T : topo) : Prop := NoDup (map akey (attrs T)).
+Definition Hnames (T : topo) : Prop :=
+  (forall a, In a (attrs T) -> str_nodup (map fst (a_infos a)) = true) /\ str_nodup (map fst (t_infos T)) = true.
+Definition Hu64 (T : topo) : Prop := forall a, In a (attrs T) -> a_lmem a < U64 /\ a_tmem a < U64.
+
+Lemma keys_unique_Hkeys T : keys_unique T = true <-> Hkeys T.
+Proof. unfold keys_unique, Hkeys. apply key_nodup_NoDup. Qed.
+Lemma info_names_nodup_Hnames T : info_names_nodup T = true <-> Hnames T.
+Proof.
+  unfold info_names_nodup, Hnames. rewrite andb_true_iff, forallb_forall. tauto.
+Qed.
+Lemma vals_u64_Hu64 T : vals_u64 T = true <-> Hu64 T.
+Proof.
+  unfold vals_u64, Hu64. rewrite forallb_forall. split; intros H a Ha; specialize (H a Ha).
+  - apply andb_true_iff in H. rewrite !N.ltb_lt in H. exact H.
+  - apply andb_true_iff. rewrite !N.ltb_lt. exact H.
+Qed.
+
+Lemma attrs_oattrs T : attrs T = oattrs (t_root T).
+Proof. reflexivity. Qed.
+
+(* ------------------------------------------------------------------ *)
+(* info lists                                                           *)
+
+Lemma str_in_In s l : str_in s l = true <-> In s l.
+Proof.
+  induction l as [|x r IH]; cbn [str_in In]; [split; [discriminate|tauto]|].
+  rewrite orb_true_iff, String.eqb_eq, IH. tauto.
+Qed.
+
+Lemma patch_names nm old new l l' : patch_infos nm old new l = Some l' -> map fst l' = map fst l /\ In nm (map fst l).
+Proof.
+  revert l'. induction l as [|[n v] r IH]; intros l' H; cbn [patch_infos] in H; [discriminate|].
+  destruct (String.eqb n nm && String.eqb v old) eqn:E.
+  - injection H as <-. apply andb_true_iff in E. destruct E as [E _]. apply String.eqb_eq in E. subst. cbn. auto.
+  - destruct (patch_infos nm old new r) as [r'|] eqn:Er; [|discriminate]. injection H as <-.
+    destruct (IH r' eq_refl) as [H1 H2]. cbn [map fst]. rewrite H1. split; [reflexivity|right; exact H2].
+Qed.
+
+Lemma patch_inverse nm old new l l' :
+  str_nodup (map fst l) = true -> patch_infos nm old new l = Some l' -> patch_infos nm new old l' = Some l.
+Proof.
+  revert l'. induction l as [|[n v] r IH]; intros l' Hn H; cbn [patch_infos] in H; [discriminate|].
+  cbn [map fst str_nodup] in Hn. apply andb_true_iff in Hn. destruct Hn as [Hn1 Hn2]. apply negb_true_iff in Hn1.
+  destruct (String.eqb n nm && String.eqb v old) eqn:E.
+  - injection H as <-. apply andb_true_iff in E. destruct E as [E1 E2]. apply String.eqb_eq in E1, E2. subst.
+    cbn [patch_infos]. rewrite !String.eqb_refl. reflexivity.
+  - destruct (patch_infos nm old new r) as [r'|] eqn:Er; [|discriminate]. injection H as <-.
+    cbn [patch_infos]. destruct (String.eqb n nm) eqn:En.
+    + apply String.eqb_eq in En. subst n. apply patch_names in Er. destruct Er as [_ Hin].
+      apply str_in_In in Hin. congruence.
+    + cbn [andb]. rewrite (IH r' Hn2 eq_refl). reflexivity.
+Qed.
+
+Lemma patch_total_names nm old new l : map fst (patch_total nm old new l) = map fst l.
+Proof.
+  unfold patch_total. destruct (patch_infos nm old new l) eqn:E; [|reflexivity]. apply patch_names in E. tauto.
+Qed.
+
+(* uint64 arithmetic *)
+Lemma u64_roundtrip t o n : t < U64 -> o < U64 -> n < U64 -> u64add (u64add t (u64sub n o)) (u64sub o n) = t.
+Proof.
+  unfold u64add, u64sub. intros Ht Ho Hn. rewrite (N.mod_small o), (N.mod_small n) by assumption.
+  assert (HU : U64 <> 0) by (unfold U64; discriminate).
+  set (X := n + (U64 - o)). set (Y := o + (U64 - n)).
+  rewrite (N.add_mod_idemp_r t X U64) by exact HU.
+  rewrite <- (N.add_mod (t + X) Y U64) by exact HU.
+  replace (t + X + Y) with (t + 2 * U64) by (unfold X, Y; lia).
+  rewrite (N.mod_add t 2 U64) by exact HU. apply N.mod_small. exact Ht.
+Qed.
+Lemma u64add_lt a b : u64add a b < U64.
+Proof. unfold u64add. apply N.mod_lt. unfold U64. discriminate. Qed.
+
+(* ------------------------------------------------------------------ *)
+(* one entry                                                            *)
+
+Ltac kp := intros; unfold size_upd, upd_key;
+  repeat (match goal with |- context [if ?c then _ else _] => destruct c end); reflexivity.
+
+Lemma upd_key_kp k g : (forall a, akey (g a) = akey a) -> forall a, akey (upd_key k g a) = akey a.
+Proof. intros Hg a. unfold upd_key. destruct (key_eqb (akey a) k); [apply Hg|reflexivity]. Qed.
+Lemma size_upd_kp k ch n v : forall a, akey (size_upd k ch n v a) = akey a.
+Proof. kp. Qed.
+
+Lemma run_obj_table f T (Hk : forall a, akey (f a) = akey a) :
+  table (run_eff (EObj f) T) = map (fun p => (f (fst p), snd p)) (table T).
+Proof. unfold table. destruct T; cbn. apply flat_tmap. exact Hk. Qed.
+
+Lemma get_obj_run_obj f T (Hk : forall a, akey (f a) = akey a) d i :
+  get_obj (run_eff (EObj f) T) d i = option_map (fun p => (f (fst p), snd p)) (get_obj T d i).
+Proof.
+  unfold get_obj. rewrite run_obj_table by exact Hk. rewrite lookup_map by exact Hk.
+  replace (t_nbl (run_eff (EObj f) T)) with (t_nbl T) by (destruct T; reflexivity).
+  destruct (depth_addressable (t_nbl T) d); reflexivity.
+Qed.
+
+Lemma get_obj_some T d i a anc : get_obj T d i = Some (a, anc) -> In a (attrs T) /\ akey a = (d, i).
+Proof.
+  unfold get_obj. destruct (depth_addressable (t_nbl T) d); [|discriminate]. intros H.
+  apply lookup_some in H. destruct H as [H1 H2]. split; [|exact H2].
+  unfold attrs. apply in_map_iff. exists (a, anc). auto.
+Qed.
+
+Lemma attrs_run_obj f T (Hk : forall a, akey (f a) = akey a) : attrs (run_eff (EObj f) T) = map f (attrs T).
+Proof. unfold attrs. rewrite run_obj_table by exact Hk. rewrite !map_map. reflexivity. Qed.
+
+Lemma run_obj_inverse f g T :
+  (forall x, In x (attrs T) -> g (f x) = x) -> run_eff (EObj g) (run_eff (EObj f) T) = T.
+Proof.
+  intros H. destruct T as [r nbl ac an ti di ma ck]. unfold run_eff, set_root. cbn. f_equal.
+  rewrite tmap_tmap. apply tmap_id_in. exact H.
+Qed.
+
+Lemma is_numa_true t : is_numa t = true -> t = HWLOC_OBJ_NUMANODE.
+Proof. unfold is_numa. apply N.eqb_eq. Qed.
+
+Lemma akey_set_name v a : akey (set_name v a) = akey a. Proof. reflexivity. Qed.
+Lemma akey_set_infos v a : akey (set_infos v a) = akey a. Proof. reflexivity. Qed.
+Lemma akey_set_lmem v a : akey (set_lmem v a) = akey a. Proof. reflexivity. Qed.
+Lemma akey_set_tmem v a : akey (set_tmem v a) = akey a. Proof. reflexivity. Qed.
+
+Lemma size_upd_eq k ch n v x :
+  size_upd k ch n v x =
+  set_tmem (if mem_key (akey x) ch then u64add (a_tmem x) v else a_tmem x)
+           (set_lmem (if key_eqb (akey x) k then n else a_lmem x) x).
+Proof.
+  unfold size_upd, upd_key. destruct (key_eqb (akey x) k), (mem_key (akey x) ch); destruct x; reflexivity.
+Qed.
+
+Lemma get_obj_set_tinfos v T d i : get_obj (set_tinfos v T) d i = get_obj T d i.
+Proof. reflexivity. Qed.
+Lemma set_tinfos_twice v T : set_tinfos (t_infos T) (set_tinfos v T) = T.
+Proof. destruct T; reflexivity. Qed.
+
+Lemma step_inverse rev e T T' :
+  Hkeys T -> Hnames T -> Hu64 T -> entry_u64 e = true ->
+  apply_one rev e T = Ok T' -> apply_one (negb rev) e T' = Ok T.
+Proof.
+  intros HK HN HU He H. unfold apply_one in H.
+  destruct (step rev e T) as [ef| |] eqn:Es; try discriminate. injection H as <-.
+  destruct e as [d i ad|d i|t]; cbn [step] in Es; try discriminate.
+  destruct (get_obj T d i) as [[a anc]|] eqn:Eg.
+  - destruct (get_obj_some _ _ _ _ _ Eg) as [Hin Hkey].
+    assert (Huniq : forall x, In x (attrs T) -> key_eqb (akey x) (akey a) = true -> x = a).
+    { intros x Hx E. apply key_eqb_eq in E. exact (unique_by_key _ _ _ HK Hx Hin E). }
+    destruct ad as [idx ov nv|ov nv|nm ov nv|t]; [| | |discriminate].
+    + (* SIZE *)
+      destruct (is_numa (a_type a)) eqn:Ety; cbn [negb] in Es; [|discriminate].
+      destruct ((a_lmem a =? (if rev then nv else ov))%N) eqn:El; cbn [negb] in Es; [|discriminate].
+      apply N.eqb_eq in El. injection Es as <-.
+      cbn [entry_u64] in He. apply andb_true_iff in He. destruct He as [Ho Hn]. apply N.ltb_lt in Ho, Hn.
+      unfold apply_one. cbn [step]. rewrite get_obj_run_obj by apply size_upd_kp. rewrite Eg. cbn [option_map fst snd].
+      set (old := if rev then nv else ov) in *. set (new := if rev then ov else nv).
+      assert (Hfa : size_upd (akey a) (akey a :: anc) new (u64sub new old) a =
+                    set_tmem (u64add (a_tmem a) (u64sub new old)) (set_lmem new a)).
+      { unfold size_upd, upd_key. rewrite key_eqb_refl. cbn [mem_key]. rewrite key_eqb_refl. reflexivity. }
+      rewrite Hfa. cbn [a_type set_tmem set_lmem a_lmem]. rewrite Ety. cbn [negb].
+      replace (if negb rev then nv else ov) with new by (destruct rev; reflexivity).
+      replace (if negb rev then ov else nv) with old by (destruct rev; reflexivity).
+      rewrite N.eqb_refl. cbn [negb]. f_equal.
+      apply run_obj_inverse. intros x Hx.
+      destruct (HU x Hx) as [Hxl Hxt].
+      assert (Hold : old < U64) by (unfold old; destruct rev; assumption).
+      assert (Hnew : new < U64) by (unfold new; destruct rev; assumption).
+      change (akey (set_tmem ?v (set_lmem ?w a))) with (akey a).
+      rewrite (size_upd_eq _ _ old), size_upd_kp. rewrite (size_upd_eq _ _ new).
+      destruct (key_eqb (akey x) (akey a)) eqn:Ek.
+      * assert (x = a) by (apply Huniq; assumption). subst x.
+        cbn [mem_key]. rewrite key_eqb_refl. cbn [orb].
+        destruct a; cbn in *. rewrite u64_roundtrip by assumption. subst. reflexivity.
+      * destruct (mem_key (akey x) (akey a :: anc)) eqn:Em.
+        -- destruct x; cbn in *. rewrite u64_roundtrip by assumption. reflexivity.
+        -- destruct x; reflexivity.
+    + (* NAME *)
+      destruct (a_name a) as [cur|] eqn:En; [|discriminate].
+      destruct (if rev then nv else ov) as [o|] eqn:Eo; [|discriminate].
+      destruct (String.eqb cur o) eqn:Ec; cbn [negb] in Es; [|discriminate]. apply String.eqb_eq in Ec. subst cur.
+      destruct (if rev then ov else nv) as [n|] eqn:Enw; [|discriminate]. injection Es as <-.
+      unfold apply_one. cbn [step]. rewrite get_obj_run_obj by (apply upd_key_kp; reflexivity). rewrite Eg. cbn [option_map fst snd].
+      unfold upd_key at 1. rewrite key_eqb_refl. cbn [a_name set_name].
+      replace (if negb rev then nv else ov) with (Some n) by (destruct rev; cbn; congruence).
+      replace (if negb rev then ov else nv) with (Some o) by (destruct rev; cbn; congruence).
+      rewrite String.eqb_refl. cbn [negb]. f_equal.
+      apply run_obj_inverse. intros x Hx. unfold upd_key.
+      rewrite ?key_eqb_refl, ?akey_set_name.
+      destruct (key_eqb (akey x) (akey a)) eqn:Ek.
+      * assert (x = a) by (apply Huniq; assumption). subst x.
+        rewrite ?akey_set_name, ?key_eqb_refl.
+        destruct a; cbn in *. subst. reflexivity.
+      * rewrite ?Ek. reflexivity.
+    + (* INFO on an object *)
+      destruct (patch_infos nm (if rev then nv else ov) (if rev then ov else nv) (a_infos a)) as [l|] eqn:Ep; [|discriminate].
+      injection Es as <-.
+      unfold apply_one. cbn [step]. rewrite get_obj_run_obj by (apply upd_key_kp; reflexivity). rewrite Eg. cbn [option_map fst snd].
+      unfold upd_key at 1. rewrite key_eqb_refl. cbn [a_infos set_infos].
+      replace (if negb rev then nv else ov) with (if rev then ov else nv) by (destruct rev; reflexivity).
+      replace (if negb rev then ov else nv) with (if rev then nv else ov) by (destruct rev; reflexivity).
+      unfold patch_total at 1. rewrite Ep.
+      rewrite (patch_inverse _ _ _ _ _ (proj1 HN a Hin) Ep). f_equal.
+      apply run_obj_inverse. intros x Hx. unfold upd_key.
+      rewrite ?key_eqb_refl, ?akey_set_infos.
+      destruct (key_eqb (akey x) (akey a)) eqn:Ek.
+      * assert (x = a) by (apply Huniq; assumption). subst x.
+        rewrite ?akey_set_infos, ?key_eqb_refl. cbn [a_infos set_infos].
+        unfold patch_total. rewrite Ep. rewrite (patch_inverse _ _ _ _ _ (proj1 HN a Hin) Ep).
+        destruct a; reflexivity.
+      * rewrite ?Ek. reflexivity.
+  - (* no object: topology infos *)
+    destruct (d =? t_nbl T)%Z eqn:Ed; [|discriminate].
+    destruct ad as [idx ov nv|ov nv|nm ov nv|t]; try discriminate.
+    destruct (patch_infos nm (if rev then nv else ov) (if rev then ov else nv) (t_infos T)) as [l|] eqn:Ep; [|discriminate].
+    injection Es as <-.
+    unfold apply_one. cbn [step run_eff]. rewrite get_obj_set_tinfos, Eg.
+    change (t_nbl (set_tinfos ?v T)) with (t_nbl T). rewrite Ed.
+    replace (if negb rev then nv else ov) with (if rev then ov else nv) by (destruct rev; reflexivity).
+    replace (if negb rev then ov else nv) with (if rev then nv else ov) by (destruct rev; reflexivity).
+    change (t_infos (set_tinfos ?v T)) with v.
+    unfold patch_total at 1. rewrite Ep.
+    rewrite (patch_inverse _ _ _ _ _ (proj2 HN) Ep). f_equal. cbn [run_eff].
+    change (t_infos (set_tinfos ?v T)) with v.
+    unfold patch_total. rewrite Ep. rewrite (patch_inverse _ _ _ _ _ (proj2 HN) Ep).
+    apply set_tinfos_twice.
+Qed.
+
+(* ------------------------------------------------------------------ *)
+(* the hypotheses are invariants of successful entries                  *)
+
+Definition good_upd (f : oattr -> oattr) : Prop :=
+  (forall a, akey (f a) = akey a) /\
+  (forall a, map fst (a_infos (f a)) = map fst (a_infos a)) /\
+  (forall a, a_lmem a < U64 /\ a_tmem a < U64 -> a_lmem (f a) < U64 /\ a_tmem (f a) < U64).
+
+Lemma good_upd_inv f T : good_upd f -> Hkeys T -> Hnames T -> Hu64 T ->
+  Hkeys (run_eff (EObj f) T) /\ Hnames (run_eff (EObj f) T) /\ Hu64 (run_eff (EObj f) T).
+Proof.
+  intros (G1 & G2 & G3) HK HN HU. unfold Hkeys, Hnames, Hu64. rewrite attrs_run_obj by exact G1.
+  repeat split.
+  - rewrite map_map. rewrite (map_ext _ akey G1). exact HK.
+  - intros a Ha. apply in_map_iff in Ha. destruct Ha as [b [<- Hb]]. rewrite G2. apply (proj1 HN). exact Hb.
+  - replace (t_infos (run_eff (EObj f) T)) with (t_infos T) by (destruct T; reflexivity). exact (proj2 HN).
+  - apply in_map_iff in H. destruct H as [b [<- Hb]]. apply G3. apply HU. exact Hb.
+  - apply in_map_iff in H. destruct H as [b [<- Hb]]. apply G3. apply HU. exact Hb.
+Qed.
+
+Lemma good_upd_key k g : good_upd g -> good_upd (upd_key k g).
+Proof.
+  intros (G1 & G2 & G3). unfold upd_key. split; [|split].
+  - intros a. destruct (key_eqb (akey a) k); auto.
+  - intros a. destruct (key_eqb (akey a) k); auto.
+  - intros a Ha. destruct (key_eqb (akey a) k); auto.
+Qed.
+
+Lemma step_preserves rev e T T' :
+  Hkeys T -> Hnames T -> Hu64 T -> entry_u64 e = true ->
+  apply_one rev e T = Ok T' -> Hkeys T' /\ Hnames T' /\ Hu64 T'.
+Proof.
+  intros HK HN HU He H. unfold apply_one in H.
+  destruct (step rev e T) as [ef| |] eqn:Es; try discriminate. injection H as <-.
+  destruct e as [d i ad|d i|t]; cbn [step] in Es; try discriminate.
+  destruct (get_obj T d i) as [[a anc]|] eqn:Eg.
+  - destruct ad as [idx ov nv|ov nv|nm ov nv|t]; [| | |discriminate].
+    + destruct (is_numa (a_type a)); cbn [negb] in Es; [|discriminate].
+      destruct ((a_lmem a =? (if rev then nv else ov))%N); cbn [negb] in Es; [|discriminate]. injection Es as <-.
+      cbn [entry_u64] in He. apply andb_true_iff in He. destruct He as [Ho Hn]. apply N.ltb_lt in Ho, Hn.
+      apply good_upd_inv; try assumption. split; [|split]; intros x.
+      * apply size_upd_kp.
+      * rewrite size_upd_eq. reflexivity.
+      * intros [Hl Ht]. rewrite size_upd_eq. cbn [a_lmem a_tmem set_tmem set_lmem]. split.
+        -- destruct (key_eqb (akey x) (akey a)); [destruct rev; assumption|exact Hl].
+        -- destruct (mem_key (akey x) (akey a :: anc)); [apply u64add_lt|exact Ht].
+    + destruct (a_name a) as [cur|]; [|discriminate].
+      destruct (if rev then nv else ov) as [o|]; [|discriminate].
+      destruct (String.eqb cur o); cbn [negb] in Es; [|discriminate].
+      destruct (if rev then ov else nv) as [n|]; [|discriminate]. injection Es as <-.
+      apply good_upd_inv; try assumption. apply good_upd_key. split; [|split]; intros x; auto.
+    + destruct (patch_infos nm (if rev then nv else ov) (if rev then ov else nv) (a_infos a)); [|discriminate].
+      injection Es as <-.
+      apply good_upd_inv; try assumption. apply good_upd_key. split; [|split]; intros x; auto.
+      cbn [a_infos set_infos]. apply patch_total_names.
+  - destruct (d =? t_nbl T)%Z; [|discriminate].
+    destruct ad as [idx ov nv|ov nv|nm ov nv|t]; try discriminate.
+    destruct (patch_infos nm (if rev then nv else ov) (if rev then ov else nv) (t_infos T)); [|discriminate].
+    injection Es as <-. cbn [run_eff]. unfold Hkeys, Hnames, Hu64.
+    change (attrs (set_tinfos ?v T)) with (attrs T). change (t_infos (set_tinfos ?v T)) with v.
+    repeat split; try assumption; try apply HN; try (apply HU; assumption).
+    rewrite patch_total_names. apply HN.
+Qed.
+
+(* ------------------------------------------------------------------ *)
+(* lists of entries                                                     *)
+
+(* every entry of the list applies *)
+Fixpoint apply_seq (rev : bool) (p : list entry) (T : topo) : option topo :=
+  match p with
+  | [] => Some T
+  | e :: r => match apply_one rev e T with Ok T' => apply_seq rev r T' | _ => None end
+  end.
+
+Lemma apply_loop_fail rev d : forall k T n T1,
+  apply_loop rev d k T = LFail n T1 ->
+  exists p e r, d = p ++ e :: r /\ n = (k + List.length p + 1)%nat /\ apply_seq rev p T = Some T1 /\ apply_one rev e T1 = Fail.
+Proof.
+  induction d as [|e r IH]; intros k T n T1 H; cbn [apply_loop] in H; [discriminate|].
+  destruct (apply_one rev e T) as [T'| |] eqn:E1; try discriminate.
+  - destruct (IH _ _ _ _ H) as (p & e' & r' & -> & -> & Hs & Hf).
+    exists (e :: p), e', r'. cbn [app List.length apply_seq]. rewrite E1. repeat split; auto. lia.
+  - injection H as <- <-. exists [], e, r. cbn. repeat split; auto. lia.
+Qed.
+
+Lemma apply_loop_done rev d : forall k T T1, apply_loop rev d k T = LDone T1 -> apply_seq rev d T = Some T1.
+Proof.
+  induction d as [|e r IH]; intros k T T1 H; cbn [apply_loop apply_seq] in *; [congruence|].
+  destruct (apply_one rev e T) as [T'| |]; try discriminate. eapply IH. exact H.
+Qed.
+
+Lemma apply_seq_loop rev d : forall k T T1, apply_seq rev d T = Some T1 -> apply_loop rev d k T = LDone T1.
+Proof.
+  induction d as [|e r IH]; intros k T T1 H; cbn [apply_loop apply_seq] in *; [congruence|].
+  destruct (apply_one rev e T) as [T'| |]; try discriminate. apply IH. exact H.
+Qed.
+
+Lemma cancel_loop_app rev l1 : forall l2 m T,
+  cancel_loop rev (l1 ++ l2) (List.length l1 + m) T =
+  match cancel_loop rev l1 (List.length l1) T with Some T' => cancel_loop rev l2 m T' | None => None end.
+Proof.
+  induction l1 as [|e r IH]; intros l2 m T; cbn [app List.length Nat.add cancel_loop].
+  - destruct m, l2; reflexivity.
+  - destruct (apply_one (negb rev) e T); auto.
+Qed.
+
+Lemma apply_seq_preserves rev p : forall T T1,
+  Hkeys T -> Hnames T -> Hu64 T -> forallb entry_u64 p = true ->
+  apply_seq rev p T = Some T1 -> Hkeys T1 /\ Hnames T1 /\ Hu64 T1.
+Proof.
+  induction p as [|e r IH]; intros T T1 HK HN HU Hp H; cbn [apply_seq] in H.
+  - injection H as <-. auto.
+  - cbn [forallb] in Hp. apply andb_true_iff in Hp. destruct Hp as [He Hr].
+    destruct (apply_one rev e T) as [T'| |] eqn:E1; try discriminate.
+    destruct (step_preserves _ _ _ _ HK HN HU He E1) as (HK' & HN' & HU'). eapply IH; eauto.
+Qed.
+
+(* undoing the applied entries last to first restores the topology *)
+Lemma undo_reverse_order rev p : forall T T1,
+  Hkeys T -> Hnames T -> Hu64 T -> forallb entry_u64 p = true ->
+  apply_seq rev p T = Some T1 -> cancel_loop rev (List.rev p) (List.length p) T1 = Some T.
+Proof.
+  induction p as [|e r IH]; intros T T1 HK HN HU Hp H; cbn [apply_seq] in H.
+  - injection H as <-. reflexivity.
+  - cbn [forallb] in Hp. apply andb_true_iff in Hp. destruct Hp as [He Hr].
+    destruct (apply_one rev e T) as [T'| |] eqn:E1; try discriminate.
+    destruct (step_preserves _ _ _ _ HK HN HU He E1) as (HK' & HN' & HU').
+    cbn [List.rev List.length]. replace (S (List.length r)) with (List.length (List.rev r) + 1)%nat by (rewrite rev_length; lia).
+    rewrite cancel_loop_app. rewrite rev_length. rewrite (IH _ _ HK' HN' HU' Hr H).
+    cbn [cancel_loop]. rewrite (step_inverse _ _ _ _ HK HN HU He E1). reflexivity.
+Qed.
+
+Lemma firstn_app_exact {A} (p : list A) r : firstn (List.length p) (p ++ r) = p.
+Proof. induction p as [|x p IH]; cbn; [destruct r; reflexivity|rewrite IH; reflexivity]. Qed.
+
+Lemma rollback_fixed flags d T rc T' :
+  Hkeys T -> Hnames T -> Hu64 T -> forallb entry_u64 d = true ->
+  diff_apply_fixed flags d T = ARet rc T' -> (rc < 0)%Z -> T' = T.
+Proof.
+  intros HK HN HU Hd H Hrc. unfold diff_apply_fixed in H.
+  destruct (negb (N.ldiff flags HWLOC_TOPOLOGY_DIFF_APPLY_REVERSE =? 0)%N); [injection H as _ <-; reflexivity|].
+  set (rev := negb (N.land flags HWLOC_TOPOLOGY_DIFF_APPLY_REVERSE =? 0)%N) in *.
+  destruct (apply_loop rev d 0 T) as [T1|n T1|] eqn:El; try discriminate.
+  - injection H as <- _. lia.
+  - destruct (apply_loop_fail _ _ _ _ _ _ El) as (p & e & r & -> & -> & Hs & Hf).
+    unfold cancel_loop_fixed in H. replace (pred (0 + List.length p + 1)) with (List.length p) in H by lia.
+    rewrite firstn_app_exact in H.
+    rewrite forallb_app in Hd. apply andb_true_iff in Hd. destruct Hd as [Hp _].
+    rewrite (undo_reverse_order _ _ _ _ HK HN HU Hp Hs) in H. injection H as _ <-. reflexivity.
+Qed.
